@@ -156,6 +156,21 @@ impl Fixture {
         (connect && self.hs_group >= 0, plain, items)
     }
 
+    /// Deliverable when only the first `nfields` fields are trustworthy (`bytes` = their total length).
+    pub fn deliverable_before(&self, nfields: usize, bytes: usize) -> (bool, usize, usize) {
+        // a group counts only if all of its fields lie before the tamper point
+        let mut usable = bytes;
+        if nfields < self.fields.len() {
+            let g = self.fields[nfields].group;
+            let mut k = nfields;
+            while k > 0 && self.fields[k - 1].group == g && !self.fields[k - 1].raw {
+                k -= 1;
+                usable -= self.fields[k].len;
+            }
+        }
+        self.deliverable(usable)
+    }
+
     pub fn field_start(&self, idx: usize) -> usize {
         self.fields[..idx].iter().map(|f| f.len).sum()
     }
@@ -709,7 +724,7 @@ pub fn run_ws(dec: Dec, segments: &[Vec<u8>], eof: bool) -> Vec<StepObs> {
     let rt = tokio::runtime::Builder::new_current_thread().enable_all().build().unwrap();
     rt.block_on(async move {
         let (a, b) = tokio::io::duplex(1 << 22);
-        let mut peer = tokio_websockets::ClientBuilder::new().take_over(a);
+        let mut peer = Some(tokio_websockets::ClientBuilder::new().take_over(a));
         let limits = tokio_websockets::Limits::default().max_payload_len(Some(1 << 24));
         let ws = tokio_websockets::ServerBuilder::new().limits(limits).serve(b);
         let mut framed: WebSocketFramed<_, Dec, (), Item> = WebSocketFramed::new(ws, dec);
@@ -723,11 +738,14 @@ pub fn run_ws(dec: Dec, segments: &[Vec<u8>], eof: bool) -> Vec<StepObs> {
                 continue;
             }
             if i < segments.len() {
-                if peer.send(tokio_websockets::Message::binary(segments[i].clone())).await.is_err() {
-                    obs.err = Some("harness: injector send failed".to_owned());
+                if let Some(p) = peer.as_mut() {
+                    if p.send(tokio_websockets::Message::binary(segments[i].clone())).await.is_err() {
+                        obs.err = Some("harness: injector send failed".to_owned());
+                    }
                 }
             } else {
-                let _ = peer.close().await;
+                // the peer goes away: the transport reports end of stream
+                drop(peer.take());
             }
             // poll until the adapter reports Pending twice in a row with a yield in between
             let mut quiet = 0;
